@@ -224,4 +224,163 @@ theorem stoppedWaitFor_j_succ {fuel : Nat} (hsei : JSei (scriptExecuteInternal f
                 (startTiming_jr (jqAll fuel).stp X (cancelEvents_ninv h.n t) t)) j)
           · exact Ok.pure (cancelEvents_jr X s t j)
 
+/-! ### instructions -/
+
+structure JHx (fuel : Nat) : Prop where
+  ur : JUr (unregister fuel)
+  sei : JSei (scriptExecuteInternal fuel)
+
+theorem exec_delete_j {fuel : Nat} (jh : JHx fuel) {X W : List Nat} {s : State} {t : Nat} {th : Th}
+    (h : Inv [] W none s) (o : Nat) (j : J X s) :
+    Ok (exec (fuel + 1) s t th (.delete o)) (J X (exec (fuel + 1) s t th (.delete o))) := by
+  have ih := iAll fuel
+  rw [exec_delete]
+  split
+  · exact Ok.pure j
+  · have P := presAll fuel
+    refine ((ih.ur [] W s o nameDelete h (Or.inl rfl)).and (jh.ur X [] W s o nameDelete h (Or.inl rfl) j)).bind ?_ (fun p1 => ?_)
+    · exact Pres.trans (b := cancelWaitingAll fuel (unregisterAll fuel (unregister fuel (unregister fuel s o nameDelete) o nameRemove) o) o)
+        (((P.ur _ o nameRemove).trans (P.ua _ o)).trans (P.cwa _ o)) (Pres.of_eq rfl rfl rfl)
+    refine ((ih.ur [] W _ o nameRemove p1.1.1 (Or.inl rfl)).and (jh.ur X [] W _ o nameRemove p1.1.1 (Or.inl rfl) p1.2)).bind ?_ (fun p2 => ?_)
+    · exact Pres.trans (b := cancelWaitingAll fuel (unregisterAll fuel (unregister fuel (unregister fuel s o nameDelete) o nameRemove) o) o)
+        ((P.ua _ o).trans (P.cwa _ o)) (Pres.of_eq rfl rfl rfl)
+    have j3 := (jqAll fuel).ua X _ o p2.1.1.n p2.2
+    have n3 := (nAll fuel).ua _ o p2.1.1.n
+    have j4 := (jqAll fuel).cwa X _ o n3 j3
+    exact Ok.pure (j4.congr rfl rfl rfl)
+
+theorem exec_thread_j {fuel : Nat} (jh : JHx fuel) {X W : List Nat} {s : State} {t : Nat} {th0 th : Th}
+    (h : Inv [] W none s) (r : Running s t th0) (hinst : th.inst = th0.inst) (l : Nat) (j : J X s) :
+    Ok (exec (fuel + 1) s t th (.thread l)) (J X (exec (fuel + 1) s t th (.thread l))) := by
+  rw [exec_thread]
+  split
+  · exact Ok.pure j
+  · have ht : 100 ≤ t := (h.n.range t th0 r.find).1
+    obtain ⟨i1, g1, r1, hr1, hv1⟩ := spawnSame_inv h t th l ht
+    have hi : th.inst ∈ X ∨ ∃ u, u ∈ instChain s.insts th.inst := by
+      rw [hinst]
+      rcases j.a t th0 r.find r.hasVM with m | m
+      · exact Or.inl m
+      · exact Or.inr ⟨t, m⟩
+    have j1 : J X (spawnSame s t th l) :=
+      (j.spawnIn h.n ({ label := l, inst := th.inst, params := bindLoop (s.progParams.getD l 0) 0 [], parent := t } : Th)
+        th.inst rfl rfl rfl rfl hi (by rw [hinst]; exact j.c t th0 r.find)).congr rfl rfl rfl
+    exact jh.sei X W _ s.nextTid r1 (i1.consW _) hr1 hv1 j1
+
+theorem exec_waitthread_j {fuel : Nat} (jh : JHx fuel) {X W : List Nat} {s : State} {t : Nat} {th0 th : Th}
+    (h : Inv [] W none s) (r : Running s t th0) (hcur : s.cur = some t ∨ s.cur = none) (l : Nat) (j : J X s) :
+    Ok (exec (fuel + 1) s t th (.waitthread l)) (J X (exec (fuel + 1) s t th (.waitthread l))) := by
+  rw [exec_waitthread]
+  split
+  · exact Ok.pure j
+  · have ht : 100 ≤ t := (h.n.range t th0 r.find).1
+    obtain ⟨i1, g1, r1, hr1, hv1, hd1⟩ := spawnNew_inv h t l ht
+    have j1 : J X (spawnNew s t l) :=
+      (j.spawnFresh h.n ({ label := l, inst := s.nextInst, params := bindLoop (s.progParams.getD l 0) 0 [], parent := t } : Th)
+        rfl rfl rfl rfl).congr rfl rfl rfl
+    cases hc : s.cur with
+    | none =>
+      simp only
+      exact jh.sei X W _ s.nextTid r1 (i1.consW _) hr1 hv1 j1
+    | some c =>
+      have hct : c = t := by
+        rcases hcur with e | e
+        · rw [hc] at e; exact Option.some.inj e
+        · rw [hc] at e; cases e
+      subst hct
+      simp only
+      have hne : s.nextTid ≠ c := by have := (h.n.range c th0 r.find).2; omega
+      have hkeep : thFind (spawnNew s c l).threads c = some th0 := by
+        show thFind (s.threads ++ [_]) c = _
+        rw [thFind_append, r.find]
+      have r' : Running (spawnNew s c l) c th0 := ⟨hkeep, r.vm, r.hasVM⟩
+      have halive : (spawnNew s c l).alive s.nextTid = true := by
+        rw [State.alive_thread _ (by simp [State.isThread]; exact h.n.tid100)]
+        exact (aliveTh_iff i1.n.nodup _).2 ⟨r1, hr1, hd1⟩
+      have j2 : J X (regWait (stop fuel) (spawnNew s c l) s.nextTid 0 c) :=
+        regWait_jr fuel X i1.n s.nextTid 0 c ht (Or.inr rfl) j1
+      refine (regWait_inv (fuel := fuel) none s.nextTid 0 (i1.toTop c) (fun _ => ⟨th0, hkeep, r.vm, r.hasVM⟩)
+        halive (Or.inr rfl) (Or.inr ⟨rfl, r'.noOwner i1⟩)).bind ((presAll fuel).sei _ _) (fun p => ?_)
+      obtain ⟨p1, p2, _, _, p5, p6⟩ := p
+      have hr2 : thFind (regWait (stop fuel) (spawnNew s c l) s.nextTid 0 c).threads s.nextTid = some r1 := by
+        rw [p5 _ hne]; exact hr1
+      exact jh.sei X W _ s.nextTid r1 (p1.consW _) hr2 hv1 j2
+
+theorem exec_j_succ {fuel : Nat} (jh : JHx fuel) : JEx (exec (fuel + 1)) := by
+  intro X W s t th0 th ins h hth0 hvm0 hhv0 hp hok hcur hinst j
+  have r : Running s t th0 := ⟨hth0, hvm0, hhv0⟩
+  have ht : 100 ≤ t := (h.n.range t th0 hth0).1
+  cases ins with
+  | mark k => rw [exec_mark]; exact Ok.pure (j.congr rfl rfl rfl)
+  | pparam i => rw [exec_pparam]; exact Ok.pure (j.congr rfl rfl rfl)
+  | wait ms => rw [exec_wait]; exact Ok.pure (waitOn_jr fuel X h.n t ms j)
+  | waittill o names =>
+    rw [exec_waittill]
+    split
+    · exact Ok.pure j
+    · rename_i hoa
+      have hoa' : s.objAlive o = true := by simpa using hoa
+      have ho : o < 100 := objAlive_lt h.n hoa'
+      cases hc : s.cur with
+      | none => exact Ok.pure j
+      | some c =>
+        have hc100 : 100 ≤ c := h.n.cur c hc
+        simp only
+        exact Ok.pure (JR.foldl (X := X) (fun s n => regWait (stop fuel) s o n c)
+          (fun s n hs => regWait_ninv (nAll fuel).stp hs o n c hc100 (Or.inl ho))
+          (fun s n hs => regWait_jr fuel X hs o n c hc100 (Or.inl ho)) names s h.n j)
+  | waittillTimeout o n ms =>
+    rw [exec_waittillTimeout]
+    split
+    · exact Ok.pure j
+    · rename_i hoa
+      have hoa' : s.objAlive o = true := by simpa using hoa
+      have ho : o < 100 := objAlive_lt h.n hoa'
+      cases hc : s.cur with
+      | none => exact Ok.pure j
+      | some c =>
+        have hc100 : 100 ≤ c := h.n.cur c hc
+        simp only
+        exact Ok.pure ((regWait_jr fuel X h.n o n c hc100 (Or.inl ho) j).congr rfl rfl rfl)
+  | notify o n =>
+    rw [exec_notify]
+    split
+    · exact Ok.pure j
+    · exact jh.ur X [] W s o n h (Or.inl rfl) j
+  | endon o n =>
+    rw [exec_endon]
+    split
+    · exact Ok.pure j
+    · split
+      · exact Ok.pure j
+      · exact Ok.pure (j.congr rfl rfl rfl)
+  | delete o => exact exec_delete_j jh h o j
+  | thread l => exact exec_thread_j jh h r hinst l j
+  | waitthread l => exact exec_waitthread_j jh h r hcur l j
+  | pause =>
+    rw [exec_pause]
+    exact Ok.pure ((((jqAll fuel).stp X s t h.n).trans (vmSuspend_jr X _ t)) j)
+  | waitParent ms =>
+    rw [exec_waitParent]
+    split
+    · exact Ok.pure j
+    · exact Ok.pure (waitOnGuarded_jr fuel X h.n th.parent ms j)
+  | waittillParent names => exact absurd hok (by simp [Instr.ok])
+  | notifyParent n =>
+    rw [exec_notifyParent]
+    split
+    · exact Ok.pure j
+    · exact jh.ur X [] W s _ n h (Or.inl rfl) j
+  | end_ ev =>
+    rw [exec_end]
+    have n2 : NInv ((endResult s th ev).setTh t fun th => { th with call := none }) :=
+      (endResult_ninv h.n th ev).setTh t _
+    exact Ok.pure ((((endResult_jr X s th ev).trans (JR.setTh X _ t (fun th => { th with call := none }))).trans
+      ((jqAll fuel).dt X _ t n2)) j)
+  | spawn o =>
+    rw [exec_spawn]
+    split
+    · exact Ok.pure j
+    · exact Ok.pure (j.congr rfl rfl rfl)
+
 end Morfuse.Sched
